@@ -608,13 +608,24 @@ fn c03_staged(ctx: &Ctx, case: u64, acc: &mut Acc) -> Verdict {
         k: r.range(1, 3) as usize,
         tx: r.range(1, 10) as u8,
         s2d: r.range(2, 4) * p,
-        rda: 86_400_000_000,
+        // far away, or so short that the Down records of the first wave are forgotten one by one while the
+        // survivors carry on (each forget-timer must leave the count of active members alone)
+        rda: 86_400_000_000, // see below
         mps: 1400,
         notify_down: r.chance(1, 2),
         pa: None,
         pad: None,
         pg: if r.chance(1, 2) { Some((p / 2, 2)) } else { None },
     };
+    // remove_down_after: far away, or just long enough for every survivor to have declared the first wave Down
+    // before the first Down record is forgotten (shorter than that, a crashed member is legitimately re-learned
+    // from stale gossip and the statement's bound does not apply); the second failure then comes after the
+    // forgetting: each forget-timer must leave the count of active members alone
+    let mut cfg = cfg;
+    let forgetting = case % 2 == 1;
+    if forgetting {
+        cfg.rda = (2 * n as u64 + 1) * p + cfg.s2d + p * (case / 2 % 4);
+    }
     let lat = if r.chance(1, 2) { (1, R * 9 / 10) } else { (1, R / 4) };
     let Some(mut f) = formed(r.next(), n, &cfg, Renew::None, lat, acc)? else {
         acc.inconclusive += 1;
@@ -647,8 +658,8 @@ fn c03_staged(ctx: &Ctx, case: u64, acc: &mut Acc) -> Verdict {
             );
         }
     }
-    // wave 2, some time later
-    let t_gap = f.sim.now + r.below(4 * p);
+    // wave 2, some time later (after the Down records of the first wave have been forgotten, when they are to be)
+    let t_gap = f.sim.now + r.below(4 * p) + if forgetting { cfg.rda + 2 * p } else { 0 };
     f.sim.run_until(t_gap, acc, &mut nop)?;
     let x = survivors[r.usize(live1)];
     let t2 = f.sim.now;
